@@ -6,6 +6,7 @@ C03.S  scratch register excluded from every register named anywhere in the
        program (all register-bearing operand kinds traversed) and from the
        temporaries of the same command
 C03.M  mnemonic -> class lookup; one output instruction per input command
+C03.L  assemble_subroutine executed on 98 labelled programs: every branch lands on what followed its label (inserted sets included)
 C03.P  macro expansion executed: every `$name` expands to the definition of exactly that name, for every definition order
        (names that are prefixes of one another included)
 """
@@ -30,11 +31,13 @@ EXPLANATION = (
     ' Operand-producing functions must return fresh objects (no memoisation, no module-level table), because _replace_constants rewrites operands in place. C03.Z: no truthiness test on an int-typed value in the assembler (a label at instruction 0 is a value).'
     ' get_current_registers is executed abstractly (checker-side AST interpreter) with one register at the top level and in each register-bearing attribute of each operand class.'
     ' C03.P: _apply_macros is executed for every definition order of four macros, three of whose names are prefixes of one another, and must give the token-wise expansion each time.'
+    ' C03.S: _replace_constants is executed on twelve programs and judged against the property (scratch register named nowhere in the program, distinct within a command, one set per literal, nothing else moved, exhaustion raises).'
+    ' C03.L: assemble_subroutine is executed on 98 labelled programs (three commands in every order, two labels in every pair of the four slots, consecutive labels, a label after the last instruction, bracketed arguments and literals to materialise, a duplicate label): every branch target is the index of what followed its label, inserted set commands included.'
 )
 LEVEL_TEXT = (
     "Static analysis, partial: decides the structural clauses the assembler's correctness rests on for every instruction class and "
     "every operand kind (pass order, literal-exception table, scratch-register exclusion, one-to-one final pass). Not decided: label "
-    "arithmetic and insertion indices (value-level list manipulation), macro values that themselves contain macro references."
+    "arithmetic and insertion indices for arbitrary programs (decided for the enumerated families of C03.S and C03.L only), macro values that themselves contain macro references."
 )
 LEVEL_NOTE = "not decided: value-level index arithmetic in _assign_branch_labels/_replace_constants, macros defined in terms of other macros; trusts the AST constant evaluator for the module-level table"
 ASSUMPTIONS = [LEVEL_NOTE]
@@ -578,6 +581,128 @@ def check_macros(ctx, rule="C03.P"):
     ctx.anchor(rule, "callers of _apply_macros", len(callers), 1)
 
 
+def check_labels(ctx, rule="C03.L"):
+    """"Every branch lands on the instruction that followed its label", decided by executing assemble_subroutine.
+
+    assemble_subroutine (with _build_subroutine modelled: it hands back the command list it was given) runs in the checker's
+    interpreter on an enumerated family of programs: three commands in every order - one with bracketed arguments and literals to
+    materialise, `jmp A`, `beq R0 R1 B` - with the labels A and B in every pair of the four slots before / between / after the
+    commands (consecutive labels and a label after the last instruction included), plus a one-command program, a self-jump and a
+    duplicate label.  Required of the result: no label is left, the source commands keep their order, every literal got its `set`
+    directly in front of its command, and each branch target is the index of the first command (inserted `set`s included) of what
+    followed the label in the source - the length of the program for a label at the end."""
+    import itertools
+    from .. import circuit as C
+    repo = ctx.repo
+    m = repo.module(TEXT_MOD)
+    asm = m.functions.get("assemble_subroutine")
+    if asm is None:
+        raise AnalysisError("assemble_subroutine not found")
+    ctx.fn("text.assemble_subroutine")
+    ctx.fn("text._assign_branch_labels")
+    irm = repo.module(IR_MOD)
+    icmd, blab, proto = irm.classes["ICmd"], irm.classes["BranchLabel"], irm.classes["ProtoSubroutine"]
+    opm = repo.module(I.OPERAND_MOD)
+    R_, LBL = opm.classes["Register"], opm.classes["Label"]
+    gi = repo.get_class(IR_MOD, "GenericInstr")
+    gmem = ctx.ev.enum_members(gi)
+    rn = repo.get_class("netqasm.lang.encoding", "RegisterName")
+    rmem = ctx.ev.enum_members(rn)
+    exc = exception_table(ctx)
+    if ("JMP", 0) not in exc or ("BEQ", 2) not in exc:
+        raise AnalysisError("jmp / beq targets are not in the literal-exception table")
+    plain = next((n_ for n_ in sorted(gmem) if not any(e[0] == n_ for e in exc)), None)
+
+    def instr(name):
+        return EnumMember(gi.qualname, name, gmem[name])
+
+    def reg(i):
+        return C.Obj(R_, {"name": EnumMember(rn.qualname, "R", rmem["R"]), "index": i})
+
+    def build(order, slots, dup=False):
+        cmds = {"lit": C.Obj(icmd, {"instruction": instr(plain), "args": [41], "operands": [reg(0), 42], "lineno": None}),
+                "jmp": C.Obj(icmd, {"instruction": instr("JMP"), "args": [], "operands": [C.Obj(LBL, {"name": "A"})], "lineno": None}),
+                "beq": C.Obj(icmd, {"instruction": instr("BEQ"), "args": [], "operands": [reg(0), reg(1), C.Obj(LBL, {"name": "B"})], "lineno": None})}
+        seq = [cmds[k] for k in order]
+        out = []
+        for pos in range(len(seq) + 1):
+            for name, at in zip(("A", "B"), slots):
+                if at == pos:
+                    out.append(C.Obj(blab, {"name": "A" if dup else name, "lineno": None}))
+            if pos < len(seq):
+                out.append(seq[pos])
+        return out, seq
+
+    def run_(commands):
+        sc = C.Scenario()
+        sc.plain_registers = True
+        sc.globals = {"_REPLACE_CONSTANTS_EXCEPTION": [(instr(a_), b_) for a_, b_ in sorted(exc)]}
+        sc.overrides["_build_subroutine"] = lambda pre_subroutine=None, flavour=None, *a_, **k_: list(pre_subroutine.fields.get("_commands", pre_subroutine.fields.get("commands")))
+        sc.overrides["VanillaFlavour"] = lambda *a_, **k_: None
+        pre = C.Obj(proto, {"_commands": list(commands), "_arguments": [], "_app_id": 0, "_netqasm_version": (0, 10)})
+        try:
+            return C.Interp(repo, ctx.ev, sc, None).call_function(m, asm, [pre], {"flavour": C.Obj(None, {})}), None
+        except C.EvalRaise as ex_:
+            return None, ex_.exc_name
+
+    bad = {}
+    n = 0
+    try:
+        for order in itertools.permutations(("lit", "jmp", "beq")):
+            for slots in itertools.product(range(4), repeat=2):
+                n += 1
+                commands, seq = build(order, slots)
+                label = f"commands {list(order)}, label A before position {slots[0]}, B before position {slots[1]}"
+                out, raised = run_(commands)
+                if raised is not None or not isinstance(out, list):
+                    bad.setdefault("completes", f"{label}: {raised or out!r}")
+                    continue
+                if any(isinstance(x, C.Obj) and x.cls is blab for x in out):
+                    bad.setdefault("labels-removed", f"{label}: a label is still in the assembled program")
+                    continue
+                pos = {}
+                k = 0
+                for i_, x in enumerate(out):
+                    if k < len(seq) and x is seq[k]:
+                        pos[k] = i_
+                        k += 1
+                if k != len(seq):
+                    bad.setdefault("source-kept", f"{label}: the source commands are not all there, once and in order")
+                    continue
+                # the group of a command starts after the previous source command: its inserted `set`s, then the command
+                start = {j: (pos[j - 1] + 1 if j else 0) for j in range(len(seq))}
+                li = order.index("lit")
+                n_sets = pos[li] - start[li]
+                if n_sets != 2 or len(out) != len(seq) + 2 or any(pos[j] != start[j] for j in range(len(seq)) if j != li):
+                    bad.setdefault("literals-materialised", f"{label}: {n_sets} commands inserted before the command with the bracketed argument 41 and the literal 42 (expected 2), program length {len(out)}")
+                    continue
+                for who, lab_i, op_i in (("jmp", 0, 0), ("beq", 1, 2)):
+                    tgt = seq[order.index(who)].fields["operands"][op_i]
+                    want = start[slots[lab_i]] if slots[lab_i] < len(seq) else len(out)
+                    if tgt != want or isinstance(tgt, bool):
+                        bad.setdefault("branch-lands-on-what-followed-its-label", f"{label}: `{who}` now targets {tgt!r}; what followed its label starts at index {want} of the assembled program "
+                                                                                  f"({'past its end' if want == len(out) else 'the inserted set commands included'})")
+        n += 1
+        one = C.Obj(icmd, {"instruction": instr("JMP"), "args": [], "operands": [C.Obj(LBL, {"name": "A"})], "lineno": None})
+        out, raised = run_([C.Obj(blab, {"name": "A", "lineno": None}), one])
+        if raised is not None or one.fields["operands"][0] != 0 or isinstance(one.fields["operands"][0], bool):
+            bad.setdefault("branch-lands-on-what-followed-its-label", f"a jump to a label in front of the first (and only) command targets {one.fields['operands'][0]!r} ({raised}); expected 0")
+        n += 1
+        commands, seq = build(("lit", "jmp", "beq"), (0, 2), dup=True)
+        out, raised = run_(commands)
+        if raised is None:
+            bad.setdefault("duplicate-label-refused", "two labels with the same name are accepted")
+    except AnalysisError as ex_:
+        ctx.error(rule, f"assemble_subroutine cannot be evaluated: {ex_}")
+        return
+    ctx.anchor(rule, "labelled programs assembled", n, 90)
+    texts = {"completes": "assembling a labelled program fails", "labels-removed": "labels are left in the program", "source-kept": "source commands are dropped, duplicated or reordered",
+             "literals-materialised": "literals and bracketed arguments are not materialised in front of their command",
+             "branch-lands-on-what-followed-its-label": "a branch does not land on the instruction that followed its label", "duplicate-label-refused": "a duplicate label is not refused"}
+    for key, text in texts.items():
+        ctx.check(rule, f"assemble_subroutine:{key}", key not in bad, f"{text}: {bad.get(key)}", repo.loc(m, asm), sample={"programs": n})
+
+
 def check_fresh_operands(ctx):
     """C03.S: _replace_constants rewrites operands in place, so every parsed operand must be an object of its own:
     nothing on the parsing path may be memoised or served from a module-level container."""
@@ -644,6 +769,7 @@ def run(ctx):
     check_fresh_operands(ctx)
     check_lookup(ctx)
     check_macros(ctx, "C03.P")
+    check_labels(ctx, "C03.L")
     # 0 is an ordinary id / value / address: nothing int-valued may be tested by truthiness (nqsa/truth.py)
     from .. import truth
     truth.check(ctx, "C03.Z", ['netqasm.lang.parsing.text'])
@@ -657,6 +783,13 @@ def run(ctx):
 
 T = "netqasm/lang/parsing/text.py"
 SEEDS = [
+    dict(id="c03-label-off-by-one", file=T, expect="C03.L", construct="branch-lands", old="        branch_labels[branch_label] = command_number\n", new="        branch_labels[branch_label] = command_number + 1\n"),
+    dict(id="c03-label-counted-before-sets", file=T, expect="C03.L", construct="branch-lands",
+         old="    if replace_constants:\n        pre_subroutine.commands = _replace_constants(pre_subroutine.commands)\n    if assign_branch_labels:\n        _assign_branch_labels(pre_subroutine)\n",
+         new="    if assign_branch_labels:\n        _assign_branch_labels(pre_subroutine)\n    if replace_constants:\n        pre_subroutine.commands = _replace_constants(pre_subroutine.commands)\n"),
+    dict(id="c03-labels-patched-from-second-command", file=T, expect="C03.L", construct="branch-lands", old="def _update_labels(subroutine, variables: Dict[str, int], from_command=0):", new="def _update_labels(subroutine, variables: Dict[str, int], from_command=1):"),
+    dict(id="c03-duplicate-label-last-wins", file=T, expect="C03.L", construct="duplicate-label", old="        if branch_label in branch_labels:\n            raise NetQASMSyntaxError(\n                f\"branch labels need to be unique, name {branch_label} already used\"\n            )\n", new=""),
+    dict(id="c03-label-removal-skips-next", file=T, expect="C03.L", construct="", old="        commands = commands[:command_number] + commands[command_number + 1 :]\n", new="        commands = commands[:command_number] + commands[command_number + 1 :]\n        command_number += 1\n"),
     dict(id="c03-label-lookup-truthiness", file=T, expect="C03.Z", construct="_update_labels_in_operand",
          old="        for label, value in labels.items():\n            if operand.name == label:\n                return value\n", new="        value = labels.get(operand.name)\n        if value:\n            return value\n"),
 
